@@ -175,13 +175,25 @@ def _outside_graph(sg, fam, case, arrays, diff, v):
             break
 
 def clone_detach_cases():
-    return [{"op": "special:" + k, "shapes": [list(s)], "args": {"rg": r}} for k in ("clone", "detach")
-            for s in lattice.shapes(3) for r in (False, True)]
+    out = [{"op": "special:" + k, "shapes": [list(s)], "args": {"rg": r}} for k in ("clone", "detach")
+           for s in lattice.shapes(3) for r in (False, True)]
+    # sources whose data is a VIEW of another tensor's storage (row index, reshape, flatten, unsqueeze, transpose, slice)
+    for k in ("clone", "detach"):
+        for view in ("row", "reshape", "flatten", "unsqueeze", "transpose", "slice", "step_slice"):
+            for r in (False, True):
+                out.append({"op": "special:" + k, "shapes": [[3, 4]], "args": {"rg": r, "view": view}})
+    return out
 
 def judge_special(case):
     sg = harness.load()
     k = case["op"].split(":")[1]; s = tuple(case["shapes"][0])
     x = values.generic(s); src = sg.Tensor(x.copy(), requires_grad=case["args"]["rg"])
+    view = case["args"].get("view")
+    if view:
+        base = src
+        src = {"row": lambda: base[1], "reshape": lambda: base.reshape((4, 3)), "flatten": lambda: base.flatten(), "unsqueeze": lambda: base.unsqueeze(0),
+               "transpose": lambda: base.transpose(0, 1), "slice": lambda: base[0:2], "step_slice": lambda: base[:, ::2]}[view]()
+        x = np.array(np.asarray(src.data), copy=True)
     r = src.clone() if k == "clone" else src.detach()
     viol = []
     if np.shares_memory(np.asarray(r.data), np.asarray(src.data)):
@@ -194,6 +206,8 @@ def judge_special(case):
                 viol.append({"kind": f"{k}:shares-storage", "detail": "writing to the copy changed the source"})
     if not np.array_equal(np.asarray(src.data), x):
         viol.append({"kind": f"{k}:source-modified", "detail": "source changed"})
+    if view and np.shares_memory(np.asarray(r.data), np.asarray(base.data)):
+        viol.append({"kind": f"{k}:shares-storage", "detail": f"{k}() of a {view} view shares memory with the tensor the view was taken from"})
     if k == "detach" and r.requires_grad:
         viol.append({"kind": "detach:requires-grad", "detail": "detached tensor requires grad"})
     return {"nontrivial": True, "outcome": "ok", "violations": viol}
